@@ -74,12 +74,15 @@ PROPS = {
     ),
     "C05": dict(
         title="Field and scalar encodings are canonical; decoding is strict",
-        verus=[("gf255_m64_lin", None, "quick")],
-        kani=_gf255_k(["k_normalized_encode", "k_decode_ct32", "k_decode_ct_badlen"]),
+        verus=[("gf255_m64_lin", None, "quick"), ("modint_codec", 60, "quick"), ("modint_monty", 120, "quick", (), 400),
+               ("modint_mul_p1", 120, "quick", (), 400), ("modint_mul_p2", 120, "quick", (), 400), ("modint_mul_p3", 120, "quick", (), 400)],
+        kani=_gf255_k(["k_normalized_encode", "k_decode_ct32", "k_decode_ct_badlen", "k_decode_reduce32"]),
         cases=_f(["encode", "encode_alias", "decode_ct", "decode_opt", "decode_reduce", "roundtrip", "from_int", "from_w64"]),
-        level_text="GF255<MQ>: set_normalized proved by Verus (result limbs == value mod q); encode32, strict decoding (in-place, on an arbitrary previous value) for every 32-byte string and every wrong length 0..=40, and encode-after-decode, proved by Kani on the full input domain. Other field/scalar types and decode_reduce: stand-in only.",
-        level_note="u64::from_le_bytes/to_le_bytes cannot be given a Verus spec in this toolchain (const-expression array length), so byte-level codecs are decided by Kani, not Verus. decode_reduce (any length) is stand-in only.",
-        not_reached=["GF255 set_decode_reduce (stand-in only)", "codecs of ModInt256, GF448, GFsecp256k1, gfgen, binary fields"],
+        level_text="ModInt256<M0..M3> (every scalar field and the P-256 field; any odd modulus with non-zero top limb): encode32 is proved by Verus to return the 32-byte little-endian string of the unique e < m with e*2^256 == limbs (mod m), i.e. the canonical value of the Montgomery representation; set_decode32 / decode32 return status all-ones exactly for 32-byte strings with little-endian value v < m, store x < m with x*2^256 == v*R2 (mod m) and zero otherwise; with R2 == 2^512 mod m (declared for make_r2) the two compose to the identity in both directions (lemma_encode_decode, lemma_decode_encode, by cancelling 2^256 modulo the odd m). The Montgomery reduction and multiplication contracts used are discharged in the same run. GF255<MQ>: set_normalized proved by Verus (result limbs == value mod q); encode32, strict decoding (in-place, on an arbitrary previous value) for every 32-byte string and every wrong length 0..=40, and encode-after-decode, proved by Kani on the full input domain. Other field/scalar types and decode_reduce: stand-in only.",
+        level_note="u64::from_le_bytes/to_le_bytes cannot be given a Verus spec in this toolchain (const-expression array length): the GF255 byte codecs are decided by Kani, the ModInt256 ones by Verus through the documented `lebytes` renaming to declared twins (std semantics assumed) and the declared <&[u8; 8]>::try_from. decode_reduce (any length) is stand-in only.",
+        assumptions=["ModInt256::R2 == 2^512 mod m (make_r2, compile-time; declared) and M0I (proved for make_m0i in unit modint_m0i)",
+                     "set_mul is used under its general contract; the units modint_mul_p1/p2/p3 prove it under three path conditions whose disjunction is true"],
+        not_reached=["GF255 set_decode_reduce for lengths other than 32 (stand-in only)", "ModInt256 set_decode_reduce / decode_reduce (any length), set_decode_ct for ENC_LEN != 32", "codecs of GF448, GFsecp256k1, gfgen, binary fields"],
     ),
     "C06": dict(
         title="Group-element encodings are canonical, injective and strictly decoded",
